@@ -12,7 +12,7 @@ import math
 import numpy as np
 import torch
 
-from ..kernel import World, stream
+from ..kernel import World, stream, scribble
 from ..models.record import size_formula
 
 DTS = [1.0, 0.5, 0.25, 2.0, 0.1, 1.3]
@@ -171,8 +171,11 @@ class SynapseWorld(World):
                     inj = torch.tensor(op["inject"], dtype=torch.float32).reshape(bshape)
                     args.append(inj)
                 with ctx.impl("forward", facts):
-                    out = syn(*[a.clone() for a in args])
-                    out_t = twin(*[a.clone() for a in args])
+                    ca, ct = [a.clone() for a in args], [a.clone() for a in args]
+                    out = syn(*ca)
+                    out_t = twin(*ct)
+                if len(events) % 2 == 0:
+                    scribble(ctx, ca + ct)
                 ctx.step(1, dt)
                 events.append((sp.to(torch.float64).numpy(), None if inj is None else inj.to(torch.float64).numpy()))
                 if sp.any():
